@@ -375,7 +375,12 @@ class _LinearMatrix_sparse_forward_simple_covariance(_AbstractDistribution):
             if use_mkl:
                 try:
                     # Fails with OSError if MKL is not found
+                    from hmclab.Helpers import InterfaceMKL as _InterfaceMKL
                     from hmclab.Helpers.InterfaceMKL import sparse_gemv
+
+                    if _InterfaceMKL.mkl is None:
+                        # The interface module itself loads without the library
+                        raise OSError("libmkl_rt.so not found")
 
                     # MKL binding works only for sparse matrices
                     if type(G) != _sparse.csr_matrix:
